@@ -81,6 +81,10 @@ func NewCryptoKey(factory securememory.SecretFactory, created int64, revoked boo
 
 	sec, err := factory.New(key)
 	if err != nil {
+		// the factory may have failed before it copied and wiped the source,
+		// e.g. when locked memory is exhausted
+		MemClr(key)
+
 		return nil, err
 	}
 
